@@ -8,11 +8,11 @@ import (
 // ghost model kept in recency order (index 0 = most recently used).
 
 type c12Ghost struct {
-	keys  []string
-	vals  []int
-	first []time.Time // first insertion since last absence
-	last  []time.Time // last store
-	impl  []time.Time // CreatedAt as held by the implementation (first <= impl <= last)
+	keys                    []string
+	vals                    []int
+	first                   []time.Time // first insertion since last absence
+	last                    []time.Time // last store
+	impl                    []time.Time // CreatedAt as held by the implementation (first <= impl <= last)
 	hits, misses, evictions int64
 }
 
